@@ -17,6 +17,17 @@ import (
 // payload of n bytes with position-dependent content
 func mkPayload(n int, seed byte) []byte {
 	b := make([]byte, n)
+	if seed%2 == 1 {
+		// incompressible: a xorshift stream (compressed frames of such payloads are LARGER than the payload)
+		x := uint32(seed)*2654435761 + 12345
+		for i := range b {
+			x ^= x << 13
+			x ^= x >> 17
+			x ^= x << 5
+			b[i] = byte(x >> 11)
+		}
+		return b
+	}
 	for i := range b {
 		b[i] = byte(i*7) + seed + byte(i>>8)
 	}
@@ -180,6 +191,11 @@ func init() {
 		"gzip": {Enable: true, Type: gen.CompressionTypeGZIP, Threshold: 1025},
 		"zlib": {Enable: true, Type: gen.CompressionTypeZLIB, Threshold: 1025},
 		"lzw":  {Enable: true, Type: gen.CompressionTypeLZW, Threshold: 1025},
+		// levels and a higher threshold (the threshold is compared with the whole frame, not the payload)
+		"gzip-bestspeed":     {Enable: true, Type: gen.CompressionTypeGZIP, Level: gen.CompressionBestSpeed, Threshold: 1025},
+		"gzip-bestsize":      {Enable: true, Type: gen.CompressionTypeGZIP, Level: gen.CompressionBestSize, Threshold: 1025},
+		"zlib-threshold4096": {Enable: true, Type: gen.CompressionTypeZLIB, Threshold: 4096},
+		"lzw-threshold65536": {Enable: true, Type: gen.CompressionTypeLZW, Threshold: 65536},
 	}
 	sizes := []int{0, 1, 1000, 1024, 1025, 1100, 4095, 4096, 4097, 8191, 8192, 8193, 16384, 32768, 65535, 65536, 65537, 70000}
 	// ---- sizes x compression x addressing x kind: one execution each (input enumeration) ----------
